@@ -21,27 +21,24 @@ theorem printer_is_flatten : printTree = flatten := rfl
 
 /-- Printing a normal tree and parsing the text gives the tree back, for every binding-power
 table that never lets a closer or a comma continue an expression. -/
-theorem print_parse (prec : Prec) (hs : TableSane prec) (t : Tree)
-    (hn : normal prec 0 t = true) (hsp : rightSpineOK prec 0 t = true) :
+theorem print_parse (prec : Prec) (hs : TableSane prec) (t : Tree) (hn : normal prec 0 t = true) :
     parseExpr prec (printTree t) = .ok (t, []) := by
-  obtain ⟨n, h⟩ := C07.pratt_correct prec hs 0 t [] hn (by simp [headLbp]) (by simpa [headLbp] using hsp)
+  obtain ⟨n, h⟩ := C07.pratt_correct prec hs 0 t [] hn (by simp [headLbp])
+    (by simpa [headLbp] using Lemmas.Pratt.rightSpineOK_zero prec t)
   have := h n (Nat.le_refl _)
   rw [List.append_nil] at this
   exact Lemmas.Print.parseExpr_of_parseE prec this
 
 /-- Whatever the parser returns for a completely consumed input is a normal tree. -/
 theorem parse_result_normal (prec : Prec) (ts : List TokKind) (t : Tree)
-    (h : parseExpr prec ts = .ok (t, [])) :
-    normal prec 0 t = true ∧ rightSpineOK prec 0 t = true := by
-  obtain ⟨_, hn, _, hsp⟩ := C07.pratt_sound prec _ 0 ts [] t h
-  exact ⟨hn, by simpa [headLbp] using hsp⟩
+    (h : parseExpr prec ts = .ok (t, [])) : normal prec 0 t = true :=
+  (C07.pratt_sound prec _ 0 ts [] t h).2.1
 
 /-- Hence printing a PARSED expression and parsing the text again gives the same tree. -/
 theorem print_parsed_roundtrip (prec : Prec) (hs : TableSane prec) (ts : List TokKind) (t : Tree)
     (h : parseExpr prec ts = .ok (t, [])) :
-    parseExpr prec (printTree t) = .ok (t, []) := by
-  obtain ⟨hn, hsp⟩ := parse_result_normal prec ts t h
-  exact print_parse prec hs t hn hsp
+    parseExpr prec (printTree t) = .ok (t, []) :=
+  print_parse prec hs t (parse_result_normal prec ts t h)
 
 /-- Printing is a fixed point after one round: the text printed for a parsed expression parses,
 and printing the result gives that text again. -/
